@@ -2,4 +2,4 @@ import AlgoVerif.Driver.C30
 /-! exe `c30`: the catchup acceptor (Model.Catchup) behind the line protocol. -/
 open AlgoVerif
 def main (_args : List String) : IO UInt32 := do
-  Drv.foldLines (none : Driver.C30.DState) Driver.C30.handle; return 0
+  Drv.foldLines Driver.C30.DState.none Driver.C30.handle; return 0
